@@ -29,7 +29,7 @@ def run(m):
             if b.returncode!=0: return (m['name'],'BROKEN','does not compile: '+b.stderr[-400:])
         e=dict(ENV, HIVECHECK_REPO=repo, HIVECHECK_VERIF=ver, HIVECHECK_WORK=os.path.join(d,'work'))
         try:
-            p=subprocess.run(['/verif/.bin/hivecheck','-property',m['prop'],'-tier',m.get('tier','quick')],env=e,capture_output=True,text=True,timeout=600)
+            p=subprocess.run([os.environ.get('HIVECHECK_BIN','/verif/.bin/hivecheck'),'-property',m['prop'],'-tier',m.get('tier','quick')],env=e,capture_output=True,text=True,timeout=600)
         except subprocess.TimeoutExpired:
             p=subprocess.CompletedProcess([],2,'','checker did not finish within 600 s (hang)')
         out=p.stdout+p.stderr
